@@ -495,12 +495,14 @@ func (t *Tree) checkRecursion(n *node, ruleReached []bool) bool {
 		ruleReached[id] = false
 		return consumes
 	case TypeAlternate:
+		/* every alternative can be entered at this position: visit all of them */
+		consumes := true
 		for element := range n.Iterator() {
 			if !t.checkRecursion(element, ruleReached) {
-				return false
+				consumes = false
 			}
 		}
-		return true
+		return consumes
 	case TypeSequence:
 		return slices.ContainsFunc(slices.Collect(n.Iterator()), func(n *node) bool {
 			return t.checkRecursion(n, ruleReached)
@@ -509,6 +511,10 @@ func (t *Tree) checkRecursion(n *node, ruleReached []bool) bool {
 		return t.checkRecursion(t.Rules[n.String()], ruleReached)
 	case TypePlus, TypePush, TypeImplicitPush:
 		return t.checkRecursion(n.Front(), ruleReached)
+	case TypeQuery, TypeStar, TypePeekFor, TypePeekNot:
+		/* the operand is entered at this position; the expression itself can succeed without consuming */
+		t.checkRecursion(n.Front(), ruleReached)
+		return false
 	case TypeCharacter, TypeString:
 		return len(n.String()) > 0
 	case TypeDot, TypeRange:
